@@ -165,11 +165,11 @@ def miniTimer (closureCalls closureSites : List (Nat × Nat)) : CallGraph :=
     facts := [("-", true)] }
 
 /-- the shipped shape passes … -/
-theorem mini_timer_ok : entryCheck (miniTimer [] []) = true := by decide
+theorem mini_timer_ok : entryCheck (miniTimer [] []) = true := by decide +kernel
 
 /-- … calling the callback (or `Do`) from the `AfterFunc` closure does not -/
 theorem mini_timer_mutations_fail :
     entryCheck (miniTimer [] [(2, 0)]) = false ∧
-    entryCheck (miniTimer [(2, 3)] []) = false := by decide
+    entryCheck (miniTimer [(2, 3)] []) = false := by decide +kernel
 
 end Cell2v.Props.C04
